@@ -1,10 +1,18 @@
 use crate::runner::Prop;
 
 pub mod c01;
+pub mod c03;
+pub mod c04;
+pub mod c11;
+pub mod c06;
 
 pub fn lookup(id: &str) -> Option<Box<dyn Prop>> {
     match id {
         "C01" => Some(Box::new(c01::C01)),
+        "C04" => Some(Box::new(c04::C04)),
+        "C03" => Some(Box::new(c03::C03)),
+        "C06" => Some(Box::new(c06::C06)),
+        "C11" => Some(Box::new(c11::C11)),
         _ => None,
     }
 }
